@@ -174,7 +174,8 @@ func opLongChain() error {
 		case 5:
 			stopID = -3
 		default:
-			stopID = min(n, start+2000)
+			// exactly at, one below and one above the 2000-header cap
+			stopID = min(n, start+[]int{2000, 1999, 2001, 2001, 2002}[rng.Intn(5)])
 		}
 		stop := chainhash.Hash{}
 		if stopID >= 0 {
